@@ -50,7 +50,7 @@ CHECKS = {
             "Histories of gets, returns, takes, retains, resizes, rejected recycles, failing hooks and cancellations. Per object id the harness keeps its own hand-out count h. After every hand-out Object::metrics() must show the same created instant, recycle_count == h-1 and recycled absent for h == 1 and non-decreasing afterwards; hooks and Manager::recycle during the h-th hand-out must see recycle_count == h-2 and no recycled instant before the first reuse; post_create hooks see fresh metrics; retain must see exactly what Object::metrics() last reported.",
             "instants are only compared with each other, never with a wall-clock threshold; " + B, "stateful property-based testing (proptest); per-object reference counters as oracle", "6 C13"),
     "C10": ("tsim", "exploration",
-            "Managed and unmanaged pools with pool-level and per-call wait / create / recycle timeouts in {none, zero, below one millisecond, finite} handed to the builder in four different ways, runtime present (paused tokio clock, futures polled by hand, every woken future polled after every step, Advance stopping at each pending deadline; lazy steps leave a woken caller unpolled until later, so a completion that came before the deadline is observed after it) or absent (no tokio context at all). An independent reference model of FIFO admission, idle queue, gated create / recycle calls and their deadlines predicts for every call whether it is pending or finished and with which result (object id, Timeout(Wait), Timeout(Create), Closed, NoRuntimeSpecified, Backend), which objects were rejected, and how many slots are in use; build() must refuse non-zero timeouts without a runtime.",
+            "Managed and unmanaged pools with pool-level and per-call wait / create / recycle timeouts in {none, zero, below one millisecond, finite} handed to the builder in four different ways, runtime present (paused tokio clock, futures polled by hand, every woken future polled after every step, Advance stopping at each pending deadline; lazy steps leave a woken caller unpolled until later, so a completion that came before the deadline is observed after it) or absent (no tokio context at all). An independent reference model of FIFO admission, idle queue, gated create / recycle calls and their deadlines predicts for every call whether it is pending or finished and with which result (object id, Timeout(Wait), Timeout(Create), Closed, NoRuntimeSpecified, Backend), which objects were rejected, and how many slots are in use; build() must refuse non-zero timeouts without a runtime. About 1 % of the cases are a real-time probe: on an ordinary tokio runtime the first poll of a zero-wait call on an exhausted pool must already be the answer.",
             "tokio runtime only; ties between two callers' deadlines are skipped; zero create / recycle timeouts without a runtime and timeouts a call never gets to use are not judged (an up-front NoRuntimeSpecified that touches nothing is accepted)",
             "model-based property testing (proptest) on a virtual clock, plus a libFuzzer stage over the same interpreter in the thorough tier; reference timing model as oracle", "6 C10"),
     "C16": ("pgx", "exploration",
